@@ -349,6 +349,7 @@ def rule_e(ctx):
     ctx.instance(R)
     fo = Folder(symbolic=True)
     fo.func_stack.append(f.node)
+    fo.fold_all_methods = True   # helpers of the class that wrap the difference / reduction are followed
     fo.overrides = {"self._subtract_background": lambda a, k: Sym("S", a), "self._reduce_signal": lambda a, k: Sym("R", a)}
     imgs = [Obj(f"B{i}", {"copy": (lambda a, k, i=i: Opaque("img", f"B{i}c")), "img": Opaque("arr", f"B{i}.img")}) for i in range(3)]
     so = Obj("self", {"__class__": "ConcentrationAnalysis", "base": Obj("base", {"img": Opaque("arr", "BASE", {"shape": (4, 5, 3)})}), "_base_collection": imgs})
@@ -386,6 +387,9 @@ def rule_e(ctx):
             if fn in ("np.maximum", "np.fmax") and len(v.args) == 2:
                 a, b = lb(v.args[0]), lb(v.args[1])
                 return max(a[0], b[0]), a[1] | b[1], a[2] and b[2]
+            if fn in ("np.maximum.reduce", "np.fmax.reduce") and v.args and isinstance(v.args[0], (list, tuple)) and v.kw.get("axis", 0) == 0:
+                parts = [lb(x) for x in v.args[0]]
+                return max(p_[0] for p_ in parts), set().union(*[p_[1] for p_ in parts]), all(p_[2] for p_ in parts)
             if fn in ("np.max", "np.amax", "np.nanmax") and v.args and isinstance(v.args[0], (list, tuple)) and v.kw.get("axis", None) == 0:
                 parts = [lb(x) for x in v.args[0]]
                 return max(p_[0] for p_ in parts), set().union(*[p_[1] for p_ in parts]), all(p_[2] for p_ in parts)
